@@ -15,6 +15,13 @@
 (* v1 headers embed the raw ACL root and the raw settings root (and the roots carry  *)
 (* no space id); v0 headers embed nothing and both roots name the space id.          *)
 (*                                                                                  *)
+(* Byte strings with a textual / numeric encoding have several spellings of one value     *)
+(* (a base-36 number with a leading zero or an upper-case digit, a content id in another    *)
+(* multibase, a non-minimal varint or length inside a protobuf message).  Resp(t) is a term *)
+(* that is byte-different from t and denotes the same value (Val(Resp(t)) = Val(t)); a body  *)
+(* re-encoded that way keeps all its fields and differs in `enc`.  The code compares bytes,  *)
+(* and so must it: every "respell" mutation is a mutation like any other.                    *)
+(*                                                                                  *)
 (* A case = two valid spaces A, B (constructor, owner relation) and one mutation of  *)
 (* A's payload (class none / field / id / splice / forge; entry point full payload   *)
 (* or header-only with an identity).  Check(..) transcribes the validator in the     *)
@@ -27,6 +34,8 @@ CONSTANTS CtorsA,      \* constructors used for space A
           CtorsB,      \* constructors used for space B
           Classes,     \* mutation classes explored
           Entries,     \* entry points explored: "payload", "header"
+          Lenient,     \* comparisons done on the denoted VALUE instead of the bytes ({} = the code as it is);
+                       \* like Dropped only used by the adequacy analysis
           Dropped      \* checks of the validator left out ({} = the code as it is).  Used only by the adequacy
                        \* analysis (SpaceBind_drop.cfg): with a check dropped TLC must find a counterexample,
                        \* i.e. the case set exercises that check as the only line of defence
@@ -52,6 +61,11 @@ SpaceId(raw, rk) == [cid |-> Cid(raw), suffix |-> rk]
 EmptySid    == [empty |-> TRUE]
 NilRaw      == [nil |-> TRUE]
 NilInfo     == [nil |-> TRUE]
+\* another spelling of the same value / the value a term denotes
+Resp(t)     == [f \in DOMAIN t \cup {"spell"} |-> IF f = "spell" THEN "other" ELSE t[f]]
+Val1(t)     == IF "spell" \in DOMAIN t THEN [f \in DOMAIN t \ {"spell"} |-> t[f]] ELSE t
+Val(t)      == LET u == Val1(t) IN
+               IF {"cid", "suffix"} \subseteq DOMAIN u THEN [cid |-> Val1(u.cid), suffix |-> Val1(u.suffix)] ELSE u
 
 Version(c) == IF c \in {"createV0", "deriveV0"} THEN 0 ELSE 1
 IsO2O(c)   == c \in {"o2o", "o2oAny"}
@@ -74,16 +88,16 @@ AclBodyOf(c, x, y, n, sid) ==
     [identity |-> OwnerKey(c, x, y), masterKey |-> MasterKey(c, x, y), spaceId |-> sid,
      content |-> Content(c, n),
      identitySig |-> Sig(MasterKey(c, x, y), [rawid |-> OwnerKey(c, x, y)]),
-     o2o |-> Info(c, x, y)]
+     o2o |-> Info(c, x, y), enc |-> "canonical"]
 SetBodyOf(c, x, y, n, sid, aclId) ==
     [aclHeadId |-> aclId, spaceId |-> sid, changeType |-> "any-sync.space",
-     content |-> Content(c, n), identity |-> OwnerKey(c, x, y)]
+     content |-> Content(c, n), identity |-> OwnerKey(c, x, y), enc |-> "canonical"]
 HdrBodyOf(c, x, y, n, aclP, setP) ==
     [identity |-> OwnerKey(c, x, y), content |-> Content(c, n), type |-> TypeOf(c, n),
      repKey |-> RepKey(c, x, y, n),
      hpayload |-> IF IsO2O(c) THEN Info(c, x, y) ELSE [user |-> "payload"],
      aclPayload |-> aclP, settingPayload |-> setP,
-     fproto |-> IF c = "o2oAny" THEN 2 ELSE 0, version |-> Version(c)]
+     fproto |-> IF c = "o2oAny" THEN 2 ELSE 0, version |-> Version(c), enc |-> "canonical"]
 
 Space(c, x, y, n) ==
     LET key == OwnerKey(c, x, y) IN
@@ -129,15 +143,16 @@ Alt(part, f, old) ==
 
 FieldMuts == {[class |-> "field", part |-> p, field |-> f, how |-> h, rehash |-> r] :
                  p \in Parts, f \in UNION {BodyFields(q) : q \in Parts} \cup RawFields,
-                 h \in {"alt", "other", "junk"}, r \in BOOLEAN}
+                 h \in {"alt", "other", "junk", "respell"}, r \in BOOLEAN}
 ValidFieldMut(m) == /\ m.field \in BodyFields(m.part) \cup RawFields
                     /\ m.how = "junk" => m.field \in KeyFields
-                    /\ m.field = "extra" => m.how = "alt"
+                    /\ m.field = "extra" => m.how \in {"alt", "respell"}
+                    /\ m.how = "respell" => m.field # "sig"
 IdMuts == {[class |-> "id", part |-> "hdr", field |-> f, how |-> h, rehash |-> FALSE] :
-              f \in {"cid", "suffix"}, h \in {"alt", "other"}}
+              f \in {"cid", "suffix"}, h \in {"alt", "other", "respell"}}
           \cup {[class |-> "id", part |-> "hdr", field |-> "suffix", how |-> "nodot", rehash |-> FALSE]}
           \cup {[class |-> "id", part |-> p, field |-> "id", how |-> h, rehash |-> FALSE] :
-                  p \in {"acl", "set"}, h \in {"alt", "other"}}
+                  p \in {"acl", "set"}, h \in {"alt", "other", "respell"}}
 Components == {"hdr.id", "hdr.raw", "acl.id", "acl.raw", "set.id", "set.raw"}
 SpliceMuts == {[class |-> "splice", fromB |-> S] : S \in (SUBSET Components) \ {{}}}
 \* parts freshly signed by somebody (Mallory, or the owner himself) that name the ids of space A
@@ -145,6 +160,8 @@ ForgeKinds == {"set-other-right", "set-owner-right", "set-other-wronghead", "set
                "acl-other", "acl-other-badmaster", "acl-other-junkmaster", "both-other", "both-owner",
                "both-other-badmaster", "both-other-junkmaster", "both-other-badaclsig",
                "set-other-wrongspace", "set-owner-wrongspace", "both-other-wrongspace", "both-other-aclwrongspace",
+               "set-other-respellhead", "set-owner-respellhead", "set-other-respellspace", "set-owner-respellspace",
+               "both-other-aclrespellspace",
                "hdr-owner-junkinfo"}
 ForgeMuts  == {[class |-> "forge", kind |-> kd] : kd \in ForgeKinds}
 NoMut      == [class |-> "none"]
@@ -167,19 +184,25 @@ Mutate(PA, PB, m) ==
                pb  == PB[m.part]
                raw == m.field \in RawFields
                old == IF raw THEN pa.raw[m.field] ELSE pa.raw.body[m.field]
-               new == CASE m.how = "alt" -> Alt(m.part, m.field, old)
+               new == CASE m.how \in {"alt", "respell"} -> Alt(m.part, m.field, old)
                         [] m.how = "junk" -> JunkKey
                         [] m.how = "other" -> IF raw THEN pb.raw[m.field] ELSE pb.raw.body[m.field]
-               q   == IF raw THEN SetRawField(pa, m.field, new) ELSE SetBodyField(pa, m.field, new)
+               q   == IF m.how = "respell"
+                      THEN (IF raw THEN SetRawField(pa, "extra", "respelled")
+                                   ELSE SetBodyField(pa, "enc", "respelled-" \o m.field))   \* same fields, other bytes
+                      ELSE IF raw THEN SetRawField(pa, m.field, new) ELSE SetBodyField(pa, m.field, new)
            IN [PA EXCEPT ![m.part] = IF m.rehash THEN Rehash(m.part, q) ELSE q]
       [] m.class = "id" ->
            IF m.part = "hdr"
            THEN [PA EXCEPT !.hdr.id[m.field] =
                     CASE m.how = "nodot" -> NoDot
+                      [] m.how = "respell" -> Resp(PA.hdr.id[m.field])
                       [] m.how = "other" -> PB.hdr.id[m.field]
                       [] m.field = "cid"  -> JunkCid
                       [] OTHER            -> RK([n |-> "altered"])]
-           ELSE [PA EXCEPT ![m.part].id = IF m.how = "other" THEN PB[m.part].id ELSE JunkCid]
+           ELSE [PA EXCEPT ![m.part].id = CASE m.how = "other" -> PB[m.part].id
+                                            [] m.how = "respell" -> Resp(PA[m.part].id)
+                                            [] OTHER -> JunkCid]
       [] m.class = "splice" ->
            LET Pick(c, a, b) == IF c \in m.fromB THEN b ELSE a IN
            [hdr |-> [id |-> Pick("hdr.id", PA.hdr.id, PB.hdr.id), raw |-> Pick("hdr.raw", PA.hdr.raw, PB.hdr.raw)],
@@ -187,26 +210,32 @@ Mutate(PA, PB, m) ==
             set |-> [id |-> Pick("set.id", PA.set.id, PB.set.id), raw |-> Pick("set.raw", PA.set.raw, PB.set.raw)]]
       [] m.class = "forge" ->
            LET owner == PA.hdr.raw.body.identity
-               who   == IF m.kind \in {"set-owner-right", "set-owner-wronghead", "set-owner-wrongspace", "both-owner"}
+               who   == IF m.kind \in {"set-owner-right", "set-owner-wronghead", "set-owner-wrongspace", "both-owner",
+                                      "set-owner-respellhead", "set-owner-respellspace"}
                         THEN owner ELSE Mallory
                sidAlt == [cid |-> JunkCid, suffix |-> RK([n |-> "altered"])]      \* some other space id
                wrongSet == m.kind \in {"set-other-wrongspace", "set-owner-wrongspace", "both-other-wrongspace"}
                aclOnly == {"acl-other", "acl-other-badmaster", "acl-other-junkmaster"}
                both  == {"both-other", "both-owner", "both-other-badmaster", "both-other-junkmaster", "both-other-badaclsig",
-                         "both-other-wrongspace", "both-other-aclwrongspace"}
+                         "both-other-wrongspace", "both-other-aclwrongspace", "both-other-aclrespellspace"}
                mk    == IF m.kind \in {"acl-other-junkmaster", "both-other-junkmaster"} THEN JunkKey ELSE who
                isig  == IF m.kind \in {"acl-other-badmaster", "both-other-badmaster"}
                         THEN Sig(K({"x"}), [rawid |-> who]) ELSE Sig(mk, [rawid |-> who])
                fac0  == Forged([PA.acl.raw.body EXCEPT !.identity = who, !.masterKey = mk, !.content = "forged",
                                                        !.identitySig = isig,
-                                                       !.spaceId = IF m.kind \in {"both-other-wrongspace", "both-other-aclwrongspace"} THEN sidAlt ELSE @], who)
+                                                       !.spaceId = CASE m.kind \in {"both-other-wrongspace", "both-other-aclwrongspace"} -> sidAlt
+                                                                     [] m.kind = "both-other-aclrespellspace" -> Resp(PA.hdr.id)
+                                                                     [] OTHER -> @], who)
                facl  == IF m.kind = "both-other-badaclsig" THEN Rehash("acl", [fac0 EXCEPT !.raw.sig = JunkSig]) ELSE fac0
                acl   == IF m.kind \in aclOnly \cup both THEN facl ELSE PA.acl
                head  == CASE m.kind \in {"set-other-wronghead", "set-owner-wronghead"} -> JunkCid
+                          [] m.kind \in {"set-other-respellhead", "set-owner-respellhead"} -> Resp(PA.acl.id)
                           [] m.kind \in aclOnly -> PA.acl.id
                           [] OTHER -> acl.id
                fset  == Forged([PA.set.raw.body EXCEPT !.identity = who, !.content = "forged", !.aclHeadId = head,
-                                                       !.spaceId = IF wrongSet THEN sidAlt ELSE @], who)
+                                                       !.spaceId = CASE wrongSet -> sidAlt
+                                                                     [] m.kind \in {"set-other-respellspace", "set-owner-respellspace"} -> Resp(PA.hdr.id)
+                                                                     [] OTHER -> @], who)
                set   == IF m.kind \in aclOnly THEN PA.set ELSE fset
                hraw  == MkRaw([PA.hdr.raw.body EXCEPT !.hpayload = Junk], owner)
            IN IF m.kind = "hdr-owner-junkinfo"
@@ -215,14 +244,16 @@ Mutate(PA, PB, m) ==
 
 (* ----------------------- the validator, as coded ----------------------- *)
 On(check) == check \notin Dropped
+\* byte-exact comparison, as coded (value comparison only in the adequacy analysis)
+Differ(check, a, b) == IF check \in Lenient THEN Val(a) # Val(b) ELSE a # b
 \* ValidateSpaceHeader(rawHeaderWithId, identity, aclPayload, settingsPayload)
 CheckHeader(h, ident, aclP, setP) ==
     LET b == h.raw.body IN
     IF On("hdr_nodot") /\ (h.id.suffix = NoDot) THEN "hdr_nodot"
-    ELSE IF On("hdr_cid") /\ (h.id.cid # Cid(h.raw)) THEN "hdr_cid"
+    ELSE IF On("hdr_cid") /\ (Differ("hdr_cid", h.id.cid, Cid(h.raw))) THEN "hdr_cid"
     ELSE IF On("hdr_key") /\ (~WellFormed(b.identity)) THEN "hdr_key"
     ELSE IF On("hdr_sig") /\ (~SigOK(h.raw.sig, b.identity, b)) THEN "hdr_sig"
-    ELSE IF On("hdr_suffix") /\ (h.id.suffix # b.repKey) THEN "hdr_suffix"
+    ELSE IF On("hdr_suffix") /\ (Differ("hdr_suffix", h.id.suffix, b.repKey)) THEN "hdr_suffix"
     ELSE IF On("hdr_embed_acl") /\ (b.version = 1 /\ aclP # NilRaw /\ aclP # b.aclPayload) THEN "hdr_embed_acl"
     ELSE IF On("hdr_embed_set") /\ (b.version = 1 /\ setP # NilRaw /\ setP # b.settingPayload) THEN "hdr_embed_set"
     ELSE IF On("hdr_o2o") /\ (b.type \in O2OTypes /\ b.hpayload = Junk) THEN "hdr_o2o"
@@ -232,7 +263,7 @@ CheckHeader(h, ident, aclP, setP) ==
 \* validateCreateSpaceAclPayload
 CheckAcl(a) ==
     LET b == a.raw.body IN
-    IF On("acl_cid") /\ (a.id # Cid(a.raw)) THEN "acl_cid"
+    IF On("acl_cid") /\ (Differ("acl_cid", a.id, Cid(a.raw))) THEN "acl_cid"
     ELSE IF On("acl_key") /\ (~WellFormed(b.identity)) THEN "acl_key"
     ELSE IF On("acl_sig") /\ (~SigOK(a.raw.sig, b.identity, b)) THEN "acl_sig"
     ELSE IF On("acl_masterkey") /\ (~WellFormed(b.masterKey)) THEN "acl_masterkey"
@@ -242,7 +273,7 @@ CheckAcl(a) ==
 \* validateCreateSpaceSettingsPayload
 CheckSet(s) ==
     LET b == s.raw.body IN
-    IF On("set_cid") /\ (s.id # Cid(s.raw)) THEN "set_cid"
+    IF On("set_cid") /\ (Differ("set_cid", s.id, Cid(s.raw))) THEN "set_cid"
     ELSE IF On("set_key") /\ (~WellFormed(b.identity)) THEN "set_key"
     ELSE IF On("set_sig") /\ (~SigOK(s.raw.sig, b.identity, b)) THEN "set_sig"
     ELSE "ok"
@@ -256,8 +287,9 @@ CheckPayload(p) ==
     LET s == CheckSet(p.set) IN
     IF s # "ok" THEN s ELSE
     IF On("bind_spaceid") /\ (p.hdr.raw.body.version # 1   \* needCheckSpaceId
-       /\ (p.acl.raw.body.spaceId # p.hdr.id \/ p.acl.raw.body.spaceId # p.set.raw.body.spaceId)) THEN "bind_spaceid"
-    ELSE IF On("bind_aclhead") /\ (p.set.raw.body.aclHeadId # p.acl.id) THEN "bind_aclhead"
+       /\ (Differ("bind_spaceid", p.acl.raw.body.spaceId, p.hdr.id)
+           \/ Differ("bind_spaceid", p.acl.raw.body.spaceId, p.set.raw.body.spaceId))) THEN "bind_spaceid"
+    ELSE IF On("bind_aclhead") /\ (Differ("bind_aclhead", p.set.raw.body.aclHeadId, p.acl.id)) THEN "bind_aclhead"
     ELSE "ok"
 
 Outcomes == {"hdr_nodot", "hdr_cid", "hdr_key", "hdr_sig", "hdr_suffix", "hdr_embed_acl", "hdr_embed_set",
